@@ -113,6 +113,36 @@ Example wit_fixed : forall k, k <> KDense ->
   RList [(1, 0); (0, 1)].
 Proof. intros k Hk. destruct k; try congruence; vm_compute; reflexivity. Qed.
 
+(* ------------------------------------------------------------------ step lists: the union *)
+
+Lemma eqb2_true : forall a b, eqb2 a b = true <-> a = b.
+Proof.
+  intros [a1 a2] [b1 b2]. unfold eqb2. simpl. rewrite andb_true_iff, !Nat.eqb_eq. split.
+  - intros [? ?]; subst; auto.
+  - intro H; inversion H; auto.
+Qed.
+
+Lemma add_new_In : forall l acc p, In p (add_new acc l) <-> In p acc \/ In p l.
+Proof.
+  induction l as [|q l IH]; intros acc p; simpl.
+  - tauto.
+  - rewrite IH. destruct (existsb (eqb2 q) acc) eqn:E.
+    + apply existsb_exists in E. destruct E as [q' [Hin Heq]]. apply eqb2_true in Heq. subst q'.
+      split; [tauto|]. intros [H|[H|H]]; auto. subst; auto.
+    + rewrite in_app_iff. simpl. tauto.
+Qed.
+
+(* an entry is in the merged report of a step list exactly when some step flagged it *)
+Theorem merged_steps_In : forall (lists : list (list (nat * nat))) acc p,
+  In p (fold_left add_new lists acc) <-> In p acc \/ exists l, In l lists /\ In p l.
+Proof.
+  induction lists as [|l lists IH]; intros acc p; simpl.
+  - split; [tauto|]. intros [H|[l [[] _]]]; auto.
+  - rewrite IH. rewrite add_new_In. split.
+    + intros [[H|H]|[l' [H1 H2]]]; eauto.
+    + intros [H|[l' [[H1|H1] H2]]]; subst; eauto.
+Qed.
+
 (* ------------------------------------------------------------------ stored values *)
 
 Definition vals_after (pat : entries) (cols : list (nat * (nat -> Q))) (vs : list Q) : list Q :=
